@@ -232,6 +232,8 @@ pub fn generate(
     code.push_str(&generate_prelude());
 
     for decl in &file.declarations {
+        #[cfg(feature = "verif-sim")]
+        crate::verif_sim::yield_point("python:decl");
         if let Some(id) = decl.id() {
             if exclude_declarations.contains(&id.to_string()) {
                 continue;
